@@ -57,6 +57,7 @@ func (w *World) VerifyFunc(key string) (res *FuncResult) {
 			if len(merged.Params) == 0 {
 				merged.Params = pc.Params
 			}
+			merged.RetProto = pc.Yields
 			c = &merged
 		} else {
 			res.OutOfSubset = "closure implements unknown protocol " + c.Implements
@@ -300,6 +301,16 @@ func (x *Exec) checkPost(st *St, fr *Frame, v *Val, names map[string]*Val) {
 			x.emit(st, oblTemplate{kind: "post", label: e.Label, clause: e.Text, props: e.Props, pos: e.Pos}, nil, env.Formula(e.Expr))
 		}
 	})
+	if c.RetProto != "" {
+		want := x.W.protoOf(c.RetProto)
+		got := ""
+		if v != nil {
+			got = v.Proto
+		}
+		if !x.W.protoCompatible(got, want) {
+			x.emit(st, oblTemplate{kind: "proto", label: "returns", clause: "the returned function value obeys protocol " + c.RetProto + " (it is: " + got + ")"}, nil, False)
+		}
+	}
 	if fi.Lit != nil && c.Yields != "" && !st.yielded {
 		// the producer finishes without having yielded anything: the stream's finish condition must hold
 		if sc := x.W.CS.ByKey["stream."+c.Yields]; sc != nil {
